@@ -206,13 +206,24 @@ class PassShape:
         # the memo: `if task.id in <memo>: return` opens the pass; <memo> is the 5th parameter or (wrongly) scheduler state
         self.memo = p[4] if len(p) > 4 else None
         self.memo_on_self = None
-        first = [s_ for s_ in f.body if not (isinstance(s_, ast.Expr) and isinstance(s_.value, ast.Constant))][:1]
+        body_ = [s_ for s_ in f.body if not (isinstance(s_, ast.Expr) and isinstance(s_.value, ast.Constant))]
+        # plain aliases in front of the memo test (`calculated = self.__calculated`) are looked through
+        aliases = {}
+        k_ = 0
+        while k_ < len(body_) and isinstance(body_[k_], ast.Assign) and len(body_[k_].targets) == 1 and isinstance(body_[k_].targets[0], ast.Name) \
+                and isinstance(body_[k_].value, ast.Attribute) and isinstance(body_[k_].value.value, ast.Name) and body_[k_].value.value.id == p[0]:
+            aliases[body_[k_].targets[0].id] = body_[k_].value
+            k_ += 1
+        first = body_[k_:k_ + 1] if aliases and k_ < len(body_) and isinstance(body_[k_], ast.If) else body_[:1]
         if first and isinstance(first[0], ast.If):
             m = match(f"{self.task}.id in $m", first[0].test)
             if m:
                 mt = src(m['m'])
                 if isinstance(m['m'], ast.Attribute) and isinstance(m['m'].value, ast.Name) and m['m'].value.id == p[0]:
                     self.memo_on_self = m['m'].attr
+                    self.memo = mt
+                elif isinstance(m['m'], ast.Name) and m['m'].id in aliases:
+                    self.memo_on_self = aliases[m['m'].id].attr
                     self.memo = mt
                 elif self.memo is None:
                     self.memo = mt
@@ -268,6 +279,9 @@ class PassShape:
                 r['is_none'][m['a']] = not pol
                 continue
             if (match(f"{self.task}.id in {self.memo}", t) and not pol) or (match(f"{self.task}.id not in {self.memo}", t) and pol):
+                continue
+            if self.memo_on_self and ((match(f"{self.task}.id in {self.f.params[0]}.{self.memo_on_self}", t) and not pol) or
+                                      (match(f"{self.task}.id not in {self.f.params[0]}.{self.memo_on_self}", t) and pol)):
                 continue
             if getattr(self, 'memo_on_task', None) and not pol and (match(f"getattr({self.task}, '{self.memo_on_task}', $d)", t) or
                                                                    match(f"{self.task}.{self.memo_on_task}", t)):
@@ -381,12 +395,12 @@ class PassShape:
             return not any(isinstance(x, (ast.Call, ast.Await, ast.Yield, ast.YieldFrom, ast.NamedExpr)) for x in ast.walk(e))
 
         def says_in_memo(test):
-            tx = self.ex.expand(test, self.cfg.node_containing(test))
-            t, pol = facts.norm_cond(tx, True)
-            if match(f"{self.task}.id in {self.memo}", t):
-                return pol
-            if match(f"{self.task}.id not in {self.memo}", t):
-                return not pol
+            for tx in (test, self.ex.expand(test, self.cfg.node_containing(test))):
+                t, pol = facts.norm_cond(tx, True)
+                if match(f"{self.task}.id in {self.memo}", t):
+                    return pol
+                if match(f"{self.task}.id not in {self.memo}", t):
+                    return not pol
             return None
         for i, st in enumerate(body):
             if isinstance(st, (ast.Assign, ast.AnnAssign)) and st.value is not None and pure(st.value) and \
